@@ -42,6 +42,9 @@ type Task struct {
 	Ready  func() bool // only read by the scheduler while the task is parked; nil = runnable
 	Tag    string      // wait class of a conditional park ("quiesce", "cond", "")
 	Born   int         // scheduler step at which it was spawned
+	// TimerWait marks a task that only stands for a pending time.AfterFunc: it is
+	// not a goroutine of the real program until the timer fires
+	TimerWait atomic.Bool
 
 	resume chan struct{}
 	spawns int
@@ -849,6 +852,15 @@ type Timer struct {
 	c   chan time.Time
 	nt  *time.Timer
 	old bool
+
+	// AfterFunc timers in simulation mode: f runs in a library task of its own
+	af      bool
+	afSite  string
+	afFn    func()
+	afSim   *Sim
+	afOwner *Task
+	afCtl   chan time.Duration // re-arm the waiting task (negative: stop)
+	afLive  bool               // a task is waiting for the expiry
 }
 
 func NewTimer(d time.Duration) *Timer {
@@ -879,9 +891,27 @@ func NewTimer(d time.Duration) *Timer {
 
 // Stop reports whether the call stopped the timer before it fired. It never
 // drains the channel (in old mode a fired tick stays buffered).
-func (t *Timer) Stop() bool { return t.nt.Stop() }
+func (t *Timer) Stop() bool {
+	if t.af {
+		if !t.afLive {
+			return false
+		}
+		t.afLive = false
+		t.afCtl <- -1
+		return true
+	}
+	return t.nt.Stop()
+}
 
 func (t *Timer) Reset(d time.Duration) bool {
+	if t.af {
+		if t.afLive {
+			t.afCtl <- d
+			return true
+		}
+		t.afArm(d)
+		return false
+	}
 	if t.old && d <= 0 {
 		active := t.nt.Stop()
 		select {
@@ -968,4 +998,53 @@ func DialerDial(site string, d *net.Dialer, network, addr string) (net.Conn, err
 		defer cancel()
 	}
 	return DialContext(site, d, ctx, network, addr)
+}
+
+// AfterFunc replaces time.AfterFunc. In simulation mode f runs in a library
+// task of its own (created right away, blocked until the expiry) so that
+// whatever f does is scheduled like everything else.
+func AfterFunc(site string, d time.Duration, f func()) *Timer {
+	s := Active()
+	if s == nil {
+		return &Timer{nt: time.AfterFunc(d, f)}
+	}
+	t := &Timer{af: true, afSite: site, afFn: f, afSim: s, afOwner: s.me()}
+	t.afArm(d)
+	return t
+}
+
+func (t *Timer) afArm(d time.Duration) {
+	s := t.afSim
+	ctl := make(chan time.Duration, 16)
+	t.afCtl = ctl
+	t.afLive = true
+	p := s.me()
+	p.spawns++
+	s.spawn(p.ID+"."+strconv.Itoa(p.spawns), t.afSite, func() {
+		me := s.me()
+		me.TimerWait.Store(true)
+		nt := time.NewTimer(D(t.afSite, d))
+		for {
+			me.setBlocked(s, t.afSite)
+			select {
+			case <-nt.C:
+				me.park(s, t.afSite)
+				if t.afCtl == ctl {
+					t.afLive = false
+				}
+				me.TimerWait.Store(false)
+				t.afFn()
+				return
+			case nd := <-ctl:
+				nt.Stop()
+				me.park(s, t.afSite)
+				if nd < 0 {
+					return
+				}
+				nt = time.NewTimer(D(t.afSite, nd))
+			case <-s.abort:
+				runtime.Goexit()
+			}
+		}
+	}, true, p)
 }
